@@ -316,3 +316,5 @@ w("C15", "rename_columns forgets the unique list again", "pandera/api/dataframe/
   "        if new_schema.unique is not None:\n            new_schema.unique = [\n                (\n                    [rename_dict.get(col, col) for col in item]\n                    if isinstance(item, list)\n                    else rename_dict.get(item, item)\n                )\n                for item in new_schema.unique\n            ]\n", "")
 w("C13", "SeriesSchema strategy ignores the index again", "pandera/api/pandas/array.py",
   "        if index is not None:\n            strategy = st.set_pandas_index(strategy, index)\n        return strategy\n", "        return strategy\n")
+w("C02", "SeriesSchema value validation unfenced again (index errors lost in lazy mode)", "pandera/api/pandas/array.py",
+  "        except errors.SchemaErrors as exc:\n            if self.index is None:\n                raise\n", "        except errors.SchemaInitError as exc:\n            if self.index is None:\n                raise\n")
